@@ -495,8 +495,10 @@ func NewHandler(store writeStorage, acceptedMessageTypes MessageTypes, opts ...H
 func ParseProtoMsg(contentType string) (WriteMessageType, error) {
 	contentType = strings.TrimSpace(contentType)
 
+	// Optional whitespace is allowed around the ";" separating parameters,
+	// see https://www.rfc-editor.org/rfc/rfc9110#name-parameters.
 	parts := strings.Split(contentType, ";")
-	if parts[0] != appProtoContentType {
+	if strings.TrimSpace(parts[0]) != appProtoContentType {
 		return "", fmt.Errorf("expected %v as the first (media) part, got %v content-type", appProtoContentType, contentType)
 	}
 	// Parse potential https://www.rfc-editor.org/rfc/rfc9110#parameter
@@ -505,8 +507,8 @@ func ParseProtoMsg(contentType string) (WriteMessageType, error) {
 		if len(pair) != 2 {
 			return "", fmt.Errorf("as per https://www.rfc-editor.org/rfc/rfc9110#parameter expected parameters to be key-values, got %v in %v content-type", p, contentType)
 		}
-		if pair[0] == "proto" {
-			ret := WriteMessageType(pair[1])
+		if strings.TrimSpace(pair[0]) == "proto" {
+			ret := WriteMessageType(strings.TrimSpace(pair[1]))
 			if err := ret.Validate(); err != nil {
 				return "", fmt.Errorf("got %v content type; %w", contentType, err)
 			}
